@@ -345,6 +345,11 @@ func (e *Engine) call(fr *Frame, st *State, reach Term, site ssa.Instruction, c 
 		id = e.P.FuncIDOf(callee)
 	}
 	label := e.callLabel(id, callee, c)
+	if c.IsInvoke() {
+		e.ownedCallCheck(st, reach, args[0], c.Method.Name())
+	} else if callee != nil && callee.Signature.Recv() != nil && len(args) > 0 {
+		e.ownedCallCheck(st, reach, args[0], callee.Name())
+	}
 	// lock primitives
 	if strings.HasPrefix(id, "sync.") {
 		e.curLockOwner = nil
@@ -359,6 +364,9 @@ func (e *Engine) call(fr *Frame, st *State, reach Term, site ssa.Instruction, c 
 		}
 	}
 	if fc := e.P.lookupContract(id); fc != nil {
+		if fc.Constructor && !(e.FC != nil && e.FC.Constructor) && e.depth == 0 {
+			e.oblige("lock.held", "lock.phase@"+label, "configuration-phase function "+id+" (initialises fields declared immutable) is called from a function that is not in the configuration phase", reach, False, nil)
+		}
 		if fc.UnboundedAlloc && (e.P.allocChecks[e.FuncID] || e.allocAll) {
 			e.safety("alloc", "call."+labelName(id), reach, False)
 		}
